@@ -375,19 +375,24 @@ def work(job):
             nhex = len(sched0.walk(LFRicHaloExchange))
             rnd = random.Random(int(hashlib.sha1(
                 f"{fname}|{iidx}|{annexed}|{seed}".encode()).hexdigest()[:8], 16))
+            refused = set()      # refused prefixes (histories come shortest first)
             for hist in histories(nloops, nhex, maxlen, nsample, rnd, lean):
                 origin = {"file": fname, "invoke": iidx, "annexed": annexed,
                           "history": [list(o) for o in hist]}
+                if any(hist[:n] in refused for n in range(1, len(hist))):
+                    out["refused"] += 1
+                    continue
+                done = 0
                 try:
                     psy = PSyFactory("dynamo0.3",
                                      distributed_memory=True).create(info)
                     invoke = psy.invokes.invoke_list[iidx]
                     for op in hist:
                         apply_op(invoke.schedule, op)
-                except (TransformationError, IndexError):
-                    out["refused"] += 1
-                    continue
-                except (GenerationError, InternalError) as err:
+                        done += 1
+                except (TransformationError, IndexError, GenerationError,
+                        InternalError):
+                    refused.add(hist[:done + 1])
                     out["refused"] += 1
                     continue
                 try:
